@@ -79,7 +79,7 @@ def cases(ctx):
             arr[int(rng.integers(0, len(arr)))] = float(rng.choice([-1.0, 1.0])) * span_ * float(rng.choice([1e4, 1e5, 1e6]))
         ep, en = gen.easy(rng)
         if mode == "manyeasy":  # a handful of hard scores beside up to billions of easy ones: one sample is 1e-10 of the rate scale
-            ep, en = (int(x) for x in rng.choice([0, 10 ** 8, 10 ** 9, 3 * 10 ** 9, 10 ** 10, 10 ** 11, 10 ** 12], 2))
+            ep, en = (int(x) for x in rng.choice([0, 10 ** 8, 10 ** 9, 3 * 10 ** 9, 10 ** 10, 10 ** 11, 10 ** 12, 10 ** 15, 10 ** 16, 10 ** 17], 2))
             if ep == 0 and en == 0:
                 en = 3 * 10 ** 9
         sc, ec = gen.cfg(rng)
